@@ -96,4 +96,11 @@ class HH(Channel):
 
 
 def _vtrap(x, y):
-    return x / (save_exp(x / y) - 1.0)
+    """x / (exp(x / y) - 1), continuously extended over the removable 0/0 at x = 0."""
+    is_small = jnp.abs(x / y) < 1e-6
+    # The unselected branch of `jnp.where` is still evaluated (and differentiated), so
+    # it must not see the singular input.
+    safe_x = jnp.where(is_small, 1.0, x)
+    return jnp.where(
+        is_small, y * (1.0 - x / y / 2.0), safe_x / (save_exp(safe_x / y) - 1.0)
+    )
